@@ -22,7 +22,8 @@ Status of the property's clauses **on the model of the code as written**:
   non-ascending tuples (`pinned_…` regression witnesses for `(8,4,2)`);
 * end to end "no channel lower than before": **false** even without overlap, because the
   reassignment is by score and ignores the current assignment
-  (`promotion_false_without_overlap`, `promotion_false_with_0bit`).
+  (`promotion_false_without_overlap`, `promotion_false_with_0bit`); and when a count is missed the
+  realised counts can cost more than the old ones (`cost_false_with_overlap`).
 -/
 namespace PlinioVerif.C20
 open PlinioVerif.Reassign
@@ -403,6 +404,21 @@ theorem promotion_false_with_0bit :
     (refineLayer cost [0, 8] [2, 1]).applied = [2, 1] ∧
     optimizeLayer cost [0, 8] scores = [some 0, some 0, some 1] ∧
     ¬ PromotesOnly scores (optimizeLayer cost [0, 8] scores) := by
+  decide
+
+/-- **"Cost not higher" is false for the layer when a count is missed** (known finding
+`C20:refine:cost-raised:top-k-overlap`).  Precisions `(2,8)`, one channel each, a cost model under
+which the search keeps the counts `(1,1)`: channel 1 is the top-1 of both precisions, the
+reassignment puts both channels at 8 bit, and the realised counts `(0,2)` cost more than the
+counts before. -/
+theorem cost_false_with_overlap :
+    let cost : List Nat → Nat := fun v => if v = [0, 2] then 1 else 0
+    let scores : Mat := [[0, 3], [1, 2]]
+    countsOf 2 ((currentOf scores).map some) = [1, 1] ∧
+    (refineLayer cost [2, 8] [1, 1]).applied = [1, 1] ∧
+    noOverlap [1, 1] scores = false ∧
+    countsOf 2 (optimizeLayer cost [2, 8] scores) = [0, 2] ∧
+    cost [1, 1] < cost (countsOf 2 (optimizeLayer cost [2, 8] scores)) := by
   decide
 
 end PlinioVerif.C20
